@@ -1,5 +1,5 @@
 import FV.Props.Catalog
-import FV.IoSend
+import FV.IoSendSeq
 /-! # C09 — IO faults surface as errors (first instalment: one send) -/
 namespace FV.Props
 open FV
@@ -14,6 +14,38 @@ theorem C09_send_fault (msg : Bytes) (evs : List WriteEv) (sink0 : Bytes) :
       (r.out = .done → j = msg.length) ∧
       (r.out = .brokenPipe ∨ r.out = .err → j < msg.length ∧ (r.poisoned = true ↔ j ≠ 0)) :=
   FV.C09_send_fault msg evs sink0
+
+/-- **C09 (b) for a whole session.** Whatever the script of write outcomes — accepted sizes, `Ok(0)`, errors at any position,
+or the pipe never answering again — after any sequence of sends from an unpoisoned sender the sink holds: what it held, then every
+message whose send completed (in order), then at most one proper prefix of a message whose send failed, and nothing after it. -/
+theorem C09_session_sink_shape (ms : List Bytes) (st : SeqSt) (hp : st.poisoned = false) :
+    ∃ part : Bytes, (sendSeq ms st).2.sink = st.sink ++ flat (completed ms (sendSeq ms st).1) ++ part ∧
+      (part = [] ∨ ∃ m ∈ ms, ∃ j, 0 < j ∧ j < m.length ∧ part = m.take j) :=
+  sendSeq_sink_shape ms st hp
+
+/-- **C09 (c), first half.** A `recv` that ends with a read error has consumed exactly one pipe call and has kept every byte
+received so far: the occupied bytes are the same (the window may only have been moved to the front of the buffer), so the
+call can be retried and continues where it stopped. -/
+theorem C09_read_error_keeps_bytes (d : Dict) (b b' : RBuf) (rest rest' : Bytes) (evs evs' : List ReadEv) (ev : ReadEv)
+    (h : recv d (ev :: evs) b rest = (.readErr, b', rest', evs')) (hev : ev = .fail)
+    (hi : ∃ p, d.validate b.slice = .err ⟨.insufficientSize, p⟩) :
+    b'.occ = b.occ ∧ rest' = rest ∧ evs' = evs := by
+  obtain ⟨p, hp⟩ := hi
+  subst hev
+  unfold recv at h
+  simp only [hp] at h
+  simp only [ne_eq, not_true_eq_false, if_false] at h
+  have hstep : readStep b .fail rest = .oom ∨ ∃ b1, readStep b .fail rest = .err b1 ∧ b1.occ = b.occ := by
+    unfold readStep
+    split
+    · exact Or.inl rfl
+    · right; refine ⟨_, rfl, ?_⟩; split <;> rfl
+  rcases hstep with ho | ⟨b1, hb1, hocc⟩
+  · rw [ho] at h; simp at h
+  · rw [hb1] at h
+    simp only [Prod.mk.injEq, true_and] at h
+    obtain ⟨h2, h3, h4⟩ := h
+    exact ⟨by rw [← h2]; exact hocc, h3.symm, h4.symm⟩
 
 example : (writeAll [1,2,3] [.fail, .accept 3] 0 [] 0).out = .err ∧ (writeAll [1,2,3] [.fail, .accept 3] 0 [] 0).used = 1 := by decide
 end FV.Props
